@@ -349,7 +349,9 @@ def standard_check(run, pid, hargs, rule, explanation=None, cases="cases.txt", g
     found = 0
     for v in (stats.get("violations") or []):
         found += 1
-        run.violation(v.get("key", "impl:" + v.get("what", "")[:80]), dict(kind="implementation", **v), True)
+        d = dict(v)
+        d["check_kind"] = "implementation"
+        run.violation(v.get("key", "impl:" + v.get("what", "")[:80]), d, True)
     n_cmp, mism = 0, []
     if use_model:
         drv, dout = build_driver()
